@@ -385,6 +385,15 @@ class BaseWorklist(list):
         if not isinstance(liquid_class, str) or ";" in liquid_class:
             raise ValueError(f"Invalid liquid_class: {liquid_class}")
 
+        for pname, pos in (
+            ("src_start", src_start),
+            ("src_end", src_end),
+            ("dst_start", dst_start),
+            ("dst_end", dst_end),
+        ):
+            if not isinstance(pos, int) or pos < 0:
+                raise ValueError(f"Invalid {pname}: {pos}")
+
         if exclude_wells is None:
             exclude_list = []
         else:
